@@ -279,3 +279,412 @@ Proof.
   - apply dec_spec_some. cbn. lia.
   - apply dec_spec_some. cbn. lia.
 Qed.
+
+(* ---- encoder ------------------------------------------------------------------------------------- *)
+Fixpoint plain_len (ls : list leaf) : option Z :=
+  match ls with
+  | [] => Some 0
+  | LByte :: t => match plain_len t with Some k => Some (k + 1) | None => None end
+  | LBytes j :: t => if 0 <=? j then match plain_len t with Some k => Some (k + j) | None => None end else None
+  | _ => None
+  end.
+Fixpoint els_of (ops : list eop) : option (list leaf) :=
+  match ops with
+  | [] => Some []
+  | EL l :: t => match els_of t with Some ls => Some (l :: ls) | None => None end
+  | ECall _ _ :: _ => None
+  end.
+
+Definition enc_okb (e : enc_t) (n : Z) : bool :=
+  match e with
+  | Enc (Some (ECk ca cb false)) false (hd :: tl) =>
+    (ca =? n) && (cb =? n) && (0 <=? n) &&
+    match els_of tl with
+    | None => false
+    | Some tls =>
+      match plain_len tls with
+      | None => false
+      | Some kt =>
+        match hd with
+        | EL LIoa => kt =? n
+        | ECall chk (LIoa :: pls) =>
+          match plain_len pls with
+          | None => false
+          | Some kp => (kp + kt =? n) && match chk with None => true | Some (pa, pb) => (pa <=? n) && (pb <=? n) end
+          end
+        | _ => false
+        end
+      end
+    end
+  | _ => false
+  end.
+
+Lemma plain_len_nonneg ls : forall k, plain_len ls = Some k -> 0 <= k.
+Proof.
+  induction ls as [|l t IH]; intros k H; cbn [plain_len] in H.
+  - inversion H. lia.
+  - destruct l; try discriminate.
+    + destruct (plain_len t) as [k'|]; [|discriminate]. injection H as <-. specialize (IH k' eq_refl). lia.
+    + destruct (0 <=? n) eqn:E; [|discriminate]. apply Z.leb_le in E. destruct (plain_len t) as [k'|]; [|discriminate]. injection H as <-. specialize (IH k' eq_refl). lia.
+Qed.
+
+Lemma takep_enough n l : 0 <= n <= len l -> takep n l = zfirstn n l.
+Proof.
+  unfold takep, zfirstn, len. intros H. rewrite firstn_app.
+  replace (Z.to_nat n - List.length l)%nat with 0%nat by lia. cbn. apply app_nil_r.
+Qed.
+
+Lemma run_leafs_plain a sq o ls : forall k w rest, plain_len ls = Some k -> k <= len rest ->
+  run_leafs a sq o ls w rest = (w ++ zfirstn k rest, zskipn k rest).
+Proof.
+  induction ls as [|l t IH]; intros k w rest H Hk; cbn [plain_len run_leafs] in *.
+  - inversion H. rewrite zfirstn_0, zskipn_0, app_nil_r. reflexivity.
+  - destruct l; try discriminate; cbn [leaf_take].
+    + destruct (plain_len t) as [k'|] eqn:Et; [|discriminate]. injection H as <-.
+      pose proof (plain_len_nonneg _ _ Et). pose proof (len_nonneg rest).
+      rewrite takep_enough by lia.
+      rewrite (IH k' _ _ eq_refl) by (rewrite zskipn_len; lia).
+      replace (k' + 1) with (1 + k') by lia.
+      rewrite <- app_assoc, zfirstn_split, zskipn_zskipn by lia. reflexivity.
+    + destruct (0 <=? n) eqn:E; [|discriminate]. apply Z.leb_le in E. destruct (plain_len t) as [k'|] eqn:Et; [|discriminate]. injection H as <-.
+      pose proof (plain_len_nonneg _ _ Et). pose proof (len_nonneg rest).
+      rewrite takep_enough by lia.
+      rewrite (IH k' _ _ eq_refl) by (rewrite zskipn_len; lia).
+      replace (k' + n) with (n + k') by lia.
+      rewrite <- app_assoc, zfirstn_split, zskipn_zskipn by lia. reflexivity.
+Qed.
+
+Lemma run_ops_els a sq o space ops : forall ls w rest, els_of ops = Some ls ->
+  run_ops a sq o space ops w rest = run_leafs a sq o ls w rest.
+Proof.
+  induction ops as [|op t IH]; intros ls w rest H; cbn [els_of] in H.
+  - inversion H. reflexivity.
+  - destruct op as [l|chk pls]; [|discriminate].
+    destruct (els_of t) as [ls'|] eqn:E; [|discriminate]. inversion H. subst ls.
+    cbn [run_ops run_leafs]. destruct (leaf_take a sq o l rest) as [x r']. apply IH. reflexivity.
+Qed.
+
+Lemma le_enc_length k v : List.length (le_enc k v) = k.
+Proof. revert v. induction k as [|k IH]; intros v; cbn [le_enc List.length]; [reflexivity|]. rewrite IH. reflexivity. Qed.
+Lemma ioa_bytes_len a v : 0 <= ioa_sz a -> len (ioa_bytes a v) = ioa_sz a.
+Proof. intros H. unfold len, ioa_bytes. rewrite le_enc_length. lia. Qed.
+
+(* the octets one object contributes to the payload *)
+Definition enc_bytes (a : alp) (sq : bool) (o : io) : list Z := (if sq then [] else ioa_bytes a (io_addr o)) ++ io_body o.
+Definition enc_size (a : alp) (sq : bool) (n : Z) : Z := if sq then n else ioa_sz a + n.
+
+Lemma enc_bytes_len a sq o n : 0 <= ioa_sz a -> len (io_body o) = n -> len (enc_bytes a sq o) = enc_size a sq n.
+Proof.
+  intros Hi Hb. unfold enc_bytes, enc_size. rewrite len_app, Hb. destruct sq; [reflexivity|]. rewrite ioa_bytes_len by lia. reflexivity.
+Qed.
+
+Lemma enc_io_spec e a sq used o n :
+  enc_okb e n = true -> len (io_body o) = n -> ioa_ok a -> 0 <= used -> max_asdu a <= 256 ->
+  enc_io e a sq used o =
+    if max_asdu a - used <? enc_size a sq n then Ok None else Ok (Some (enc_bytes a sq o)).
+Proof.
+  intros Hok Hb Ha Hu Hm. assert (0 < ioa_sz a <= 3) by (unfold ioa_ok in Ha; lia).
+  destruct e as [chk maxdata ops|]; [|discriminate]. cbn [enc_okb] in Hok.
+  destruct chk as [[ca cb v]|]; [|discriminate]. destruct v; [discriminate|]. destruct maxdata; [discriminate|].
+  destruct ops as [|hd tl]; [discriminate|].
+  apply andb_prop in Hok as [Hok Hrest]. apply andb_prop in Hok as [Hok Hn]. apply andb_prop in Hok as [Hca Hcb].
+  assert (ca = n) by lia. assert (cb = n) by lia. subst ca cb. assert (0 <= n) by lia.
+  destruct (els_of tl) as [tls|] eqn:Etl; [|discriminate]. destruct (plain_len tls) as [kt|] eqn:Ekt; [|discriminate].
+  pose proof (plain_len_nonneg _ _ Ekt) as Hkt.
+  unfold enc_io. cbn [andb]. unfold chk_size at 1. cbn [fst snd].
+  replace ((if sq then n else ioa_sz a + n) + 0) with (enc_size a sq n) by (unfold enc_size; lia).
+  destruct (max_asdu a - used <? enc_size a sq n) eqn:Esp; [reflexivity|].
+  assert (Hw : fst (run_ops a sq o (max_asdu a - used) (hd :: tl) [] (io_body o)) = enc_bytes a sq o).
+  { destruct hd as [l|pchk pls].
+    - destruct l; try discriminate. assert (kt = n) by lia. subst kt.
+      cbn [run_ops leaf_take]. rewrite (run_ops_els _ _ _ _ _ _ _ _ Etl).
+      rewrite (run_leafs_plain _ _ _ _ _ _ _ Ekt) by lia. cbn [fst app].
+      rewrite <- Hb, zfirstn_all. reflexivity.
+    - destruct pls as [|l pls]; [discriminate|]. destruct l; try discriminate.
+      destruct (plain_len pls) as [kp|] eqn:Ekp; [|discriminate].
+      pose proof (plain_len_nonneg _ _ Ekp) as Hkp.
+      apply andb_prop in Hrest as [Hsum Hchk]. assert (kp + kt = n) by lia.
+      cbn [run_ops].
+      assert (Hpass : match pchk with Some c => negb (max_asdu a - used - len [] <? chk_size a sq c) | None => true end = true).
+      { destruct pchk as [[pa pb]|]; [|reflexivity]. apply andb_prop in Hchk as [Hpa Hpb].
+        rewrite len_nil. unfold chk_size, enc_size in *. cbn [fst snd]. destruct sq; apply negb_true_iff; lia. }
+      rewrite Hpass. cbn [run_leafs leaf_take app].
+      rewrite (run_leafs_plain _ _ _ _ _ _ _ Ekp) by lia.
+      rewrite (run_ops_els _ _ _ _ _ _ _ _ Etl).
+      rewrite (run_leafs_plain _ _ _ _ _ _ _ Ekt) by (rewrite zskipn_len; lia). cbn [fst].
+      rewrite <- app_assoc, zfirstn_split by lia. replace (kp + kt) with (len (io_body o)) by lia. rewrite zfirstn_all. reflexivity. }
+  rewrite Hw. rewrite (enc_bytes_len a sq o n) by lia.
+  destruct (256 <? used + enc_size a sq n) eqn:E; [lia|]. reflexivity.
+Qed.
+
+(* ---- CS101_ASDU_addInformationObject / addPayload --------------------------------------------------- *)
+Definition add_sq (s : asdu) : bool := negb (a_count s =? 0) && a_sq s.     (* the object is encoded without its address *)
+Definition add_allowed (a : alp) (s : asdu) (t : Z) (o : io) : bool :=
+  (a_count s =? 0) ||
+  ((a_count s <? 127) && (a_type s =? t mod 256) && (negb (a_sq s) || (io_addr o =? first_ioa a s + a_count s))).
+Definition add_result (a : alp) (s : asdu) (t : Z) (o : io) : asdu :=
+  let s1 := append (enc_bytes a (add_sq s) o) s in
+  inc_count (if a_count s =? 0 then set_type t s1 else s1).
+Definition used (s : asdu) : Z := len (a_hdr s) + len (a_pay s).
+
+Theorem add_io_spec fnl tbl a s t o r n :
+  find_row tbl t = Some r -> enc_okb (r_enc r) n = true -> len (io_body o) = n ->
+  add_limit fnl = Some 127 -> add_type_guarded fnl = Some true -> ioa_ok a -> max_asdu a <= 256 ->
+  add_io fnl tbl a s t o =
+    Ok (if add_allowed a s t o && negb (max_asdu a - used s <? enc_size a (add_sq s) n)
+        then (true, add_result a s t o) else (false, s)).
+Proof.
+  intros Hf He Hb Hl Hg Ha Hm. unfold add_io, add_allowed, add_result, add_sq, used. rewrite Hf, Hl, Hg.
+  pose proof (len_nonneg (a_hdr s)). pose proof (len_nonneg (a_pay s)).
+  destruct (a_count s =? 0) eqn:Ec; cbn [orb negb andb].
+  - rewrite (enc_io_spec _ a false _ o n He Hb Ha) by lia.
+    destruct (max_asdu a - (len (a_hdr s) + len (a_pay s)) <? enc_size a false n); reflexivity.
+  - destruct (a_count s <? 127) eqn:El; cbn [andb]; [|reflexivity].
+    destruct (a_type s =? t mod 256) eqn:Et; cbn [andb]; [|reflexivity].
+    destruct (a_sq s) eqn:Es; cbn [negb orb].
+    + destruct (io_addr o =? first_ioa a s + a_count s) eqn:Ei; cbn [andb]; [|reflexivity].
+      rewrite (enc_io_spec _ a true _ o n He Hb Ha) by lia.
+      destruct (max_asdu a - (len (a_hdr s) + len (a_pay s)) <? enc_size a true n); reflexivity.
+    + rewrite (enc_io_spec _ a false _ o n He Hb Ha) by lia.
+      destruct (max_asdu a - (len (a_hdr s) + len (a_pay s)) <? enc_size a false n); reflexivity.
+Qed.
+
+Lemma upd0_len v l : len (upd0 v l) = len l.
+Proof. destruct l; reflexivity. Qed.
+Lemma upd1_len v l : len (upd1 v l) = len l.
+Proof. destruct l as [|x [|y t]]; reflexivity. Qed.
+Lemma upd0_nth1 v l : nthz 1 (upd0 v l) = nthz 1 l.
+Proof. destruct l as [|x [|y t]]; reflexivity. Qed.
+Lemma upd1_nth1 v l : 2 <= len l -> nthz 1 (upd1 v l) = v.
+Proof. destruct l as [|x [|y t]]; unfold len; cbn [List.length]; intros H; try lia. reflexivity. Qed.
+
+Lemma add_result_hdr_len a s t o : len (a_hdr (add_result a s t o)) = len (a_hdr s).
+Proof.
+  unfold add_result, inc_count. cbn [a_hdr]. rewrite upd1_len.
+  destruct (a_count s =? 0); cbn [set_type append a_hdr]; [rewrite upd0_len|]; reflexivity.
+Qed.
+Lemma add_result_pay a s t o : a_pay (add_result a s t o) = a_pay s ++ enc_bytes a (add_sq s) o.
+Proof.
+  unfold add_result, inc_count. cbn [a_pay]. destruct (a_count s =? 0); reflexivity.
+Qed.
+Lemma add_result_vsq a s t o : 2 <= len (a_hdr s) -> a_vsq (add_result a s t o) = (a_vsq s + 1) mod 256.
+Proof.
+  intros H. unfold add_result, inc_count, a_vsq. cbn [a_hdr].
+  destruct (a_count s =? 0); cbn [set_type append a_hdr].
+  - rewrite upd1_nth1 by (rewrite upd0_len; exact H). rewrite upd0_nth1. reflexivity.
+  - rewrite upd1_nth1 by exact H. reflexivity.
+Qed.
+
+Section AddFacts.
+  Variables (fnl : asdu_level) (tbl : list row) (a : alp) (s s' : asdu) (t : Z) (o : io) (r : row) (n : Z).
+  Hypothesis Hf : find_row tbl t = Some r.
+  Hypothesis He : enc_okb (r_enc r) n = true.
+  Hypothesis Hb : len (io_body o) = n.
+  Hypothesis Hl : add_limit fnl = Some 127.
+  Hypothesis Hg : add_type_guarded fnl = Some true.
+  Hypothesis Ha : ioa_ok a.
+  Hypothesis Hm : max_asdu a <= 256.
+
+  (* a refused addition leaves the ASDU unchanged, octet for octet (header included) *)
+  Lemma add_refused_unchanged : add_io fnl tbl a s t o = Ok (false, s') -> s' = s.
+  Proof.
+    rewrite (add_io_spec fnl tbl a s t o r n Hf He Hb Hl Hg Ha Hm).
+    destruct (add_allowed a s t o && negb (max_asdu a - used s <? enc_size a (add_sq s) n)); intros H; inversion H. reflexivity.
+  Qed.
+
+  (* an accepted addition appends exactly the object's encoding and nothing else to the payload *)
+  Lemma add_accepted_appends : add_io fnl tbl a s t o = Ok (true, s') ->
+    a_pay s' = a_pay s ++ enc_bytes a (add_sq s) o /\ len (a_hdr s') = len (a_hdr s) /\
+    used s' = used s + enc_size a (add_sq s) n /\ used s' <= max_asdu a.
+  Proof.
+    rewrite (add_io_spec fnl tbl a s t o r n Hf He Hb Hl Hg Ha Hm).
+    destruct (add_allowed a s t o) eqn:Eal; cbn [andb]; [|intros H; inversion H].
+    destruct (max_asdu a - used s <? enc_size a (add_sq s) n) eqn:Esz; cbn [negb]; intros H; inversion H. subst s'.
+    assert (0 < ioa_sz a <= 3) by (unfold ioa_ok in Ha; lia).
+    unfold used in *. rewrite add_result_pay, add_result_hdr_len, len_app, (enc_bytes_len a _ o n) by lia.
+    repeat split; lia.
+  Qed.
+
+  (* the size never exceeds the configured maximum, whatever the outcome *)
+  Lemma add_size_bounded b : add_io fnl tbl a s t o = Ok (b, s') -> used s <= max_asdu a -> used s' <= max_asdu a <= 256.
+  Proof.
+    intros H Hu. destruct b.
+    - apply add_accepted_appends in H. lia.
+    - apply add_refused_unchanged in H. subst s'. lia.
+  Qed.
+
+  (* never a fault: no write outside encodedData[256] *)
+  Lemma add_no_fault : exists b s2, add_io fnl tbl a s t o = Ok (b, s2).
+  Proof.
+    rewrite (add_io_spec fnl tbl a s t o r n Hf He Hb Hl Hg Ha Hm).
+    destruct (add_allowed a s t o && negb (max_asdu a - used s <? enc_size a (add_sq s) n)); eexists; eexists; reflexivity.
+  Qed.
+
+  (* the element count goes up by exactly one, stays <= 127 and never spills into the SQ bit *)
+  Lemma add_count : add_io fnl tbl a s t o = Ok (true, s') -> 2 <= len (a_hdr s) -> 0 <= a_vsq s < 256 ->
+    a_count s' = a_count s + 1 /\ a_count s' <= 127 /\ a_sq s' = a_sq s.
+  Proof.
+    rewrite (add_io_spec fnl tbl a s t o r n Hf He Hb Hl Hg Ha Hm).
+    destruct (add_allowed a s t o) eqn:Eal; cbn [andb]; [|intros H; inversion H].
+    destruct (max_asdu a - used s <? enc_size a (add_sq s) n) eqn:Esz; cbn [negb]; intros H H2 Hv; inversion H. subst s'.
+    assert (Hc : a_count s < 127).
+    { unfold add_allowed in Eal. destruct (a_count s =? 0) eqn:E0; [lia|]. cbn [orb] in Eal.
+      apply andb_prop in Eal as [Eal _]. apply andb_prop in Eal as [Eal _]. lia. }
+    unfold a_count, a_sq in *. rewrite add_result_vsq by exact H2.
+    clear H Eal Esz Hf He Hb. set (v := a_vsq s) in *. clearbody v.
+    assert (Hq : (v + 1) mod 256 = v + 1).
+    { apply Z.mod_small. assert (v <> 255). { intros ->. cbn in Hc. lia. } lia. }
+    rewrite Hq.
+    assert (Hd : v = 128 * (v / 128) + v mod 128) by (apply Z.div_mod; lia).
+    assert (Hr : 0 <= v mod 128 < 128) by (apply Z.mod_pos_bound; lia).
+    assert (Hd1 : (v + 1) mod 128 = v mod 128 + 1).
+    { replace (v + 1) with ((v mod 128 + 1) + (v / 128) * 128) by lia. rewrite Z.mod_add by lia. apply Z.mod_small. lia. }
+    rewrite Hd1. repeat split; lia.
+  Qed.
+End AddFacts.
+
+Theorem add_payload_spec fnl s bs :
+  payload_bound fnl = Some 256 ->
+  add_payload fnl s bs = Ok (if used s + len bs <=? 256 then (true, append bs s) else (false, s)).
+Proof.
+  intros Hb. unfold add_payload, used. rewrite Hb.
+  replace (len (a_pay s) + len (a_hdr s) + len bs) with (len (a_hdr s) + len (a_pay s) + len bs) by lia.
+  destruct (len (a_hdr s) + len (a_pay s) + len bs <=? 256) eqn:E; [|reflexivity].
+  destruct (256 <? len (a_hdr s) + len (a_pay s) + len bs) eqn:E2; [lia|reflexivity].
+Qed.
+
+(* ---- round trip ------------------------------------------------------------------------------------ *)
+Lemma le_dec_enc k : forall v, 0 <= v < 256 ^ Z.of_nat k -> le_dec (le_enc k v) = v.
+Proof.
+  induction k as [|k IH]; intros v Hv.
+  - cbn in *. lia.
+  - rewrite Nat2Z.inj_succ, Z.pow_succ_r in Hv by lia.
+    cbn [le_enc le_dec fold_right]. change (fold_right (fun b acc : Z => b + 256 * acc) 0 (le_enc k (v / 256))) with (le_dec (le_enc k (v / 256))).
+    rewrite IH.
+    + pose proof (Z.div_mod v 256). lia.
+    + split; [apply Z.div_pos; lia|apply Z.div_lt_upper_bound; lia].
+Qed.
+
+Definition addr_ok (a : alp) (v : Z) : Prop := 0 <= v < 256 ^ ioa_sz a.
+
+Lemma le_dec_ioa_bytes a v : ioa_ok a -> addr_ok a v -> le_dec (ioa_bytes a v) = v.
+Proof.
+  intros Ha Hv. unfold ioa_bytes. apply le_dec_enc. unfold addr_ok in Hv.
+  rewrite Z2Nat.id by (unfold ioa_ok in Ha; lia). exact Hv.
+Qed.
+
+(* decoding at the place where an object was encoded gives the object back: individually addressed (sq = false,
+   address included) and sequence element (sq = true, no address: the caller adds base + index) *)
+Theorem obj_roundtrip a sq o n pre post :
+  ioa_ok a -> addr_ok a (io_addr o) -> len (io_body o) = n ->
+  dec_spec a (pre ++ enc_bytes a sq o ++ post) (len pre) (negb sq) n =
+    Some {| io_addr := if sq then 0 else io_addr o; io_body := io_body o |}.
+Proof.
+  intros Ha Hv Hb. assert (0 < ioa_sz a <= 3) by (unfold ioa_ok in Ha; lia).
+  pose proof (len_nonneg pre). pose proof (len_nonneg post). pose proof (len_nonneg (io_body o)).
+  unfold dec_spec, enc_bytes. destruct sq; cbn [negb app].
+  - rewrite !len_app.
+    destruct (len pre + (len (io_body o) + len post) <? len pre + 0 + n) eqn:E; [lia|].
+    rewrite zfirstn_0. replace (len pre + 0) with (len pre) by lia. rewrite zskipn_app_exact.
+    rewrite <- Hb, zfirstn_app_exact. reflexivity.
+  - rewrite !len_app, ioa_bytes_len by lia.
+    destruct (len pre + (ioa_sz a + len (io_body o) + len post) <? len pre + ioa_sz a + n) eqn:E; [lia|].
+    rewrite zskipn_app_exact. rewrite <- app_assoc.
+    rewrite <- (ioa_bytes_len a (io_addr o)) at 1 by lia. rewrite zfirstn_app_exact.
+    rewrite le_dec_ioa_bytes by assumption.
+    rewrite <- (zskipn_zskipn (len pre) (ioa_sz a)) by lia. rewrite zskipn_app_exact.
+    rewrite <- (ioa_bytes_len a (io_addr o)) at 1 by lia. rewrite zskipn_app_exact.
+    rewrite <- Hb, zfirstn_app_exact. reflexivity.
+Qed.
+
+(* ---- row predicates evaluated over the generated table on every run ------------------------------------- *)
+(* the one variable-length type (F_SG_NA_1): exact expected shape; the generic theorems above are stated for the
+   fixed-length rows, the segment row is tied to the code by the correspondence and the oracle *)
+Definition seg_dec_okb (d : dec_t) (e : elem_t) (f k : Z) : bool :=
+  match d, e with
+  | Dec false (MIoa m) (Some (k', f')) IoaAlways reads, ESingle =>
+    (m =? f) && (k' =? k) && (f' =? f) && (0 <=? k) && (k <? f) &&
+    match rev reads with RData off :: pre => (off =? f) && reads_tile (rev pre) 0 f | _ => false end
+  | _, _ => false
+  end.
+Definition seg_enc_okb (e : enc_t) (f : Z) : bool :=
+  match e with
+  | Enc (Some (ECk ca cb true)) true (EL LIoa :: tl) =>
+    (ca =? f) && (cb =? f) &&
+    match els_of tl with
+    | Some ls => match rev ls with LVar :: pre => match plain_len (rev pre) with Some j => j =? f | None => false end | _ => false end
+    | None => false
+    end
+  | _ => false
+  end.
+
+Definition row_c02_okb (r : row) : bool :=
+  match std_len (tid r) with
+  | Some (Fixed _) => row_dec_okb r
+  | Some (Segment f k) => seg_dec_okb (r_dec r) (r_elem r) f k
+  | None => false
+  end.
+Definition row_c12_okb (r : row) : bool :=
+  match std_len (tid r) with
+  | Some (Fixed n) => enc_okb (r_enc r) n
+  | Some (Segment f _) => seg_enc_okb (r_enc r) f
+  | None => false
+  end.
+Definition row_c01_okb (r : row) : bool := row_c02_okb r && row_c12_okb r.
+Definition asdu_fn_okb (f : asdu_level) : bool :=
+  match add_limit f, add_type_guarded f, payload_bound f with
+  | Some 127, Some true, Some 256 => space_formula f
+  | _, _, _ => false
+  end.
+
+Definition rows_okb (p : row -> bool) (known : list Z) (tbl : list row) : bool :=
+  forallb (fun r => existsb (Z.eqb (tid r)) known || p r) tbl.
+
+Lemma rows_okb_sound p known tbl : rows_okb p known tbl = true ->
+  forall r, In r tbl -> ~ In (tid r) known -> p r = true.
+Proof.
+  unfold rows_okb. rewrite forallb_forall. intros H r Hr Hk. specialize (H r Hr).
+  apply orb_prop in H as [H|H]; [|exact H]. exfalso. apply Hk.
+  apply existsb_exists in H as [x [Hx Hxe]]. apply Z.eqb_eq in Hxe. subst x. exact Hx.
+Qed.
+
+Lemma asdu_fn_okb_sound f : asdu_fn_okb f = true ->
+  add_limit f = Some 127 /\ add_type_guarded f = Some true /\ payload_bound f = Some 256.
+Proof.
+  unfold asdu_fn_okb. destruct (add_limit f) as [l|]; [|discriminate].
+  destruct (add_type_guarded f) as [[|]|]; destruct (payload_bound f) as [b|]; intros H;
+    repeat match type of H with match ?x with _ => _ end = true => destruct x; try discriminate end; auto.
+Qed.
+
+(* ---- statements used by Properties/C02.v --------------------------------------------------------------- *)
+Theorem get_element_total tbl a msg idx :
+  ioa_ok a -> 0 <= idx ->
+  (forall r, find_row tbl (msg_type msg) = Some r -> row_dec_okb r = true) ->
+  exists res, get_element tbl a msg idx = Ok res.
+Proof.
+  intros Ha Hi Hr. destruct (find_row tbl (msg_type msg)) as [r|] eqn:Ef.
+  - eexists. apply (get_element_spec tbl a msg idx r Ha Hi Ef (Hr r eq_refl)).
+  - eexists. apply get_element_unknown. exact Ef.
+Qed.
+
+Theorem get_element_exact tbl a msg idx r n :
+  ioa_ok a -> 0 <= idx -> 0 <= hdr_len a ->
+  find_row tbl (msg_type msg) = Some r -> row_dec_okb r = true -> std_len (tid r) = Some (Fixed n) ->
+  ((exists o, get_element tbl a msg idx = Ok (Some o)) <->
+   hdr_len a <= len msg /\
+   lay_off (r_elem r) a (msg_sq msg) n idx + lay_len (r_elem r) a (msg_sq msg) n <= len msg - hdr_len a).
+Proof.
+  intros Ha Hi Hh Hf Hr Hs. rewrite (get_element_spec tbl a msg idx r Ha Hi Hf Hr).
+  destruct (Z_lt_ge_dec (len msg) (hdr_len a)) as [Hlt|Hge].
+  - unfold spec_element. destruct (len msg <? hdr_len a) eqn:E; [|lia]. split.
+    + intros [o Ho]. discriminate.
+    + lia.
+  - pose proof (spec_element_exact tbl a msg idx r n Hf Hs) as Hx. split.
+    + intros [o Ho]. split; [lia|]. apply Hx; [lia|]. exists o. congruence.
+    + intros [_ Hfit]. apply Hx in Hfit; [|lia]. destruct Hfit as [o Ho]. exists o. congruence.
+Qed.
+
+Lemma parse_hdr_none a msg : parse_hdr a msg = None <-> len msg < hdr_len a.
+Proof.
+  unfold parse_hdr. destruct (len msg <? hdr_len a) eqn:E; split; intros H; try lia; try reflexivity; discriminate.
+Qed.
